@@ -25,6 +25,12 @@ Round 6 (over ℝ, Mathlib's arccos):
   T_C08_specs_real         ArcEdge through the point at θ/2, Angle(θ, axis) for every witness choice, Origin (flatness 1) give the same
                            third point, the circle's centre and radius, and the length r·θ
   T_C08_tie_theta_guard / _arc3 / _origin / _valid   the model agrees with guards, constants, defaults regenerated from the source text
+Round 6c:
+  T_C08_arc3_length_coords   the ℝ length theorem on coordinates: R·arccos(r1·r3/R²) or R·(2π − that) by the code's side test
+  T_C08_arc3_chord_real      arc length ≥ chord for every accepted three-point arc
+  T_C08_arc3_param           frame and angles 0 < ψ < θ < 2π derived from the coordinates of any accepted triple
+  T_C08_arc3_length_all      length = r·θ ↔ (θ ≤ π ∨ ψ < π) for every accepted input, r·(2π − θ) otherwise
+  T_C08_arc3_translation_real   the length does not depend on where the arc is
 -/
 import CBV.Lemmas.C08
 import CBV.Lemmas.C08Real
@@ -663,6 +669,288 @@ example :
     ((1 : ℝ) * 1 = nsq (sub pS (thetaCentre pS pE n 0 1 2 2))) := by
   norm_num [circPt, comb, nsq, dot, sub, add, cross, thetaChord, thetaCentre, midPoint, unitVec, smul]
 
+/-! ### round 6c: the length theorem directly on coordinates; arc ≥ chord for every three-point arc -/
+
+/-- **`arc_length_3point` on coordinates, over ℝ** — no frame, no angles given: for *any* three points of ℝ³ that the guard accepts
+    (`denom ≠ 0`), with `C` the computed centre, `r_i` the radius vectors, `R = |r1|` and `φ = arccos(r1·r3 / R²) ∈ [0, π]` the included
+    angle: `R > 0`, `|r3|² = R²`, the cosine is never clipped, and the reported length is `R·φ` when the code's side test
+    `dot(cross(r1,r2), cross(r1,r3)) < 0` is false and `R·(2π − φ)` when it is true. -/
+theorem T_C08_arc3_length_coords (pS pB pE : Vec ℝ) (hden : arc3Denom pS pB pE ≠ 0) :
+    0 < Real.sqrt (nsq (sub pS (arc3Centre pS pB pE))) ∧
+    nsq (sub pE (arc3Centre pS pB pE)) = nsq (sub pS (arc3Centre pS pB pE)) ∧
+    arc3LengthR pS pB pE =
+      Real.sqrt (nsq (sub pS (arc3Centre pS pB pE))) *
+        (if arc3SideTest (sub pS (arc3Centre pS pB pE)) (sub pB (arc3Centre pS pB pE)) (sub pE (arc3Centre pS pB pE)) < 0
+          then 2 * Real.pi - Real.arccos (dot (sub pS (arc3Centre pS pB pE)) (sub pE (arc3Centre pS pB pE))
+                / nsq (sub pS (arc3Centre pS pB pE)))
+          else Real.arccos (dot (sub pS (arc3Centre pS pB pE)) (sub pE (arc3Centre pS pB pE))
+                / nsq (sub pS (arc3Centre pS pB pE)))) := by
+  obtain ⟨c1, c2, _⟩ := T_C08_arc3_centre pS pB pE hden
+  obtain ⟨C, hC⟩ : ∃ C, C = arc3Centre pS pB pE := ⟨_, rfl⟩
+  rw [← hC] at c1 c2 ⊢
+  have sym : ∀ u v : Vec ℝ, nsq (sub u v) = nsq (sub v u) := by
+    intro u v; simp only [nsq, dot, sub]; ring
+  have h2 : nsq (sub pB C) = nsq (sub pS C) := by rw [sym pB C, sym pS C, c1]
+  have h3 : nsq (sub pE C) = nsq (sub pS C) := by rw [sym pE C, sym pS C, c2]
+  have hnn : ∀ v : Vec ℝ, 0 ≤ nsq v := by
+    intro v; simp only [nsq, dot]; nlinarith [mul_self_nonneg v.x, mul_self_nonneg v.y, mul_self_nonneg v.z]
+  -- the radius is positive: otherwise the three points coincide and the denominator vanishes
+  have hR2 : 0 < nsq (sub pS C) := by
+    rcases lt_or_eq_of_le (hnn (sub pS C)) with h | h
+    · exact h
+    · exfalso
+      have ha : nsq (sub pB pS) ≤ 2 * nsq (sub pB C) + 2 * nsq (sub pS C) := by
+        have : 2 * nsq (sub pB C) + 2 * nsq (sub pS C) - nsq (sub pB pS)
+            = nsq (add (sub pB C) (sub pS C)) := by simp only [nsq, dot, sub, add]; ring
+        linarith [hnn (add (sub pB C) (sub pS C))]
+      have ha0 : nsq (sub pB pS) = 0 := le_antisymm (by rw [h2, ← h] at ha; linarith) (hnn _)
+      have hcs := cauchy_schwarz (sub pB pS) (sub pE pS)
+      have hd : arc3Denom pS pB pE = nsq (sub pB pS) * nsq (sub pE pS) - dot (sub pB pS) (sub pE pS) * dot (sub pB pS) (sub pE pS) := rfl
+      have hd2 := arc3Denom_eq pS pB pE
+      have : arc3Denom pS pB pE = 0 := by
+        apply le_antisymm
+        · rw [hd, ha0]; nlinarith [mul_self_nonneg (dot (sub pB pS) (sub pE pS))]
+        · rw [hd2]; exact hnn _
+      exact hden this
+  obtain ⟨R, hR⟩ : ∃ R, R = Real.sqrt (nsq (sub pS C)) := ⟨_, rfl⟩
+  have hR0 : 0 < R := by rw [hR]; exact Real.sqrt_pos.mpr hR2
+  have hRR : R * R = nsq (sub pS C) := by rw [hR]; exact Real.mul_self_sqrt (le_of_lt hR2)
+  refine ⟨by rw [← hR]; exact hR0, h3, ?_⟩
+  unfold arc3LengthR arc3LengthAt arc3AngleR
+  rw [← hC, h3, ← hR, ← hRR]
+  -- the cosine is within [-1, 1]: no clipping
+  have hcs := cauchy_schwarz (sub pS C) (sub pE C)
+  rw [h3, ← hRR] at hcs
+  have habs : |dot (sub pS C) (sub pE C)| ≤ R * R := by
+    exact abs_le_of_sq_le_sq (by rw [sq, sq]; exact hcs) (by positivity)
+  have hq : clipR (dot (sub pS C) (sub pE C) / (R * R)) = dot (sub pS C) (sub pE C) / (R * R) := by
+    have hpos : 0 < R * R := by positivity
+    have hb := abs_le.mp habs
+    unfold clipR
+    rw [if_neg (by rw [not_lt, le_div_iff₀ hpos]; linarith), if_neg (by rw [not_lt, div_le_iff₀ hpos]; linarith)]
+  rw [hq]
+  split <;> ring
+
+/-- **Arc length ≥ chord for every three-point arc** (classic arcs, and Origin / Angle arcs, whose length is `arc_length_3point` of the
+    written third point) — over ℝ, for all inputs the guard accepts, whichever way the side test decides:
+    `|pE − pS| ≤ arc_length_3point(pS, pB, pE)`.  (`|pE − pS|² = 2R²(1 − cos φ) ≤ R²φ²`, and `2π − φ ≥ φ`.) -/
+theorem T_C08_arc3_chord_real (pS pB pE : Vec ℝ) (hden : arc3Denom pS pB pE ≠ 0) :
+    Real.sqrt (nsq (sub pE pS)) ≤ arc3LengthR pS pB pE := by
+  obtain ⟨hR0, h3, hlen⟩ := T_C08_arc3_length_coords pS pB pE hden
+  obtain ⟨C, hC⟩ : ∃ C, C = arc3Centre pS pB pE := ⟨_, rfl⟩
+  rw [← hC] at hR0 h3 hlen
+  obtain ⟨R, hR⟩ : ∃ R, R = Real.sqrt (nsq (sub pS C)) := ⟨_, rfl⟩
+  rw [← hR] at hR0 hlen
+  have hR2 : 0 < nsq (sub pS C) := by
+    by_contra h
+    rw [hR, Real.sqrt_eq_zero_of_nonpos (not_lt.mp h)] at hR0
+    exact lt_irrefl _ hR0
+  have hRR : R * R = nsq (sub pS C) := by rw [hR]; exact Real.mul_self_sqrt (le_of_lt hR2)
+  obtain ⟨q, hq⟩ : ∃ q, q = dot (sub pS C) (sub pE C) / nsq (sub pS C) := ⟨_, rfl⟩
+  rw [← hq] at hlen
+  have hcs := cauchy_schwarz (sub pS C) (sub pE C)
+  rw [h3] at hcs
+  have habs : |dot (sub pS C) (sub pE C)| ≤ nsq (sub pS C) :=
+    abs_le_of_sq_le_sq (by rw [sq, sq]; exact hcs) (le_of_lt hR2)
+  have hb := abs_le.mp habs
+  have hq1 : -1 ≤ q := by rw [hq, le_div_iff₀ hR2]; linarith
+  have hq2 : q ≤ 1 := by rw [hq, div_le_iff₀ hR2]; linarith
+  have hcos : Real.cos (Real.arccos q) = q := Real.cos_arccos hq1 hq2
+  have hφ0 := Real.arccos_nonneg q
+  have hφπ := Real.arccos_le_pi q
+  -- the squared chord
+  have hch : nsq (sub pE pS) = 2 * (R * R) * (1 - q) := by
+    have e : nsq (sub pE pS) = nsq (sub pE C) + nsq (sub pS C) - 2 * dot (sub pS C) (sub pE C) := by
+      simp only [nsq, dot, sub]; ring
+    have hd : dot (sub pS C) (sub pE C) = q * nsq (sub pS C) := by rw [hq]; field_simp
+    rw [e, h3, hd, hRR]; ring
+  have hbound := Real.one_sub_sq_div_two_le_cos (x := Real.arccos q)
+  rw [hcos] at hbound
+  have hfirst : Real.sqrt (nsq (sub pE pS)) ≤ R * Real.arccos q := by
+    have h0 : 0 ≤ R * Real.arccos q := mul_nonneg (le_of_lt hR0) hφ0
+    calc Real.sqrt (nsq (sub pE pS)) ≤ Real.sqrt ((R * Real.arccos q) * (R * Real.arccos q)) := by
+          apply Real.sqrt_le_sqrt
+          rw [hch]
+          nlinarith [mul_pos hR0 hR0]
+      _ = R * Real.arccos q := Real.sqrt_mul_self h0
+  rw [hlen]
+  split
+  · have : R * Real.arccos q ≤ R * (2 * Real.pi - Real.arccos q) :=
+      mul_le_mul_of_nonneg_left (by linarith) (le_of_lt hR0)
+    linarith
+  · exact hfirst
+
+/-- non-vacuity: three points of a circle of radius 5 about (1, 2, 3) -/
+example : arc3Denom (⟨6, 2, 3⟩ : Vec ℝ) ⟨1, 7, 3⟩ ⟨1, -3, 3⟩ ≠ 0 := by
+  norm_num [arc3Denom, nsq, dot, sub]
+
+/-- **The angle parametrisation is derived from coordinates.**  Any three points of ℝ³ that the guard of `arc_length_3point` accepts
+    are the points at the angles `0 < ψ < θ < 2π` of a circle about the computed centre: there are an orthonormal frame `e1, e2` of
+    their plane (`e1 = r1/R`, `e2 = n × e1` with `n` the unit normal `(pB − pS) × (pE − pS)`, so that the third point comes first),
+    a radius `r > 0` and the two angles.  Hence the frame theorems `T_C08_arc3_length_real` / `_beyond` / `_iff` speak about **every**
+    non-degenerate input. -/
+theorem T_C08_arc3_param (pS pB pE : Vec ℝ) (hden : arc3Denom pS pB pE ≠ 0) :
+    ∃ (e1 e2 : Vec ℝ) (r ψ θ : ℝ), Frame e1 e2 ∧ 0 < r ∧ 0 < ψ ∧ ψ < θ ∧ θ < 2 * Real.pi ∧
+      pS = circAt (arc3Centre pS pB pE) e1 e2 r 0 ∧ pB = circAt (arc3Centre pS pB pE) e1 e2 r ψ ∧
+      pE = circAt (arc3Centre pS pB pE) e1 e2 r θ := by
+  obtain ⟨c1, c2, c3⟩ := T_C08_arc3_centre pS pB pE hden
+  obtain ⟨hR0, h3, _⟩ := T_C08_arc3_length_coords pS pB pE hden
+  obtain ⟨C, hC⟩ : ∃ C, C = arc3Centre pS pB pE := ⟨_, rfl⟩
+  rw [← hC] at c1 c2 c3 hR0 h3 ⊢
+  have sym : ∀ u v : Vec ℝ, nsq (sub u v) = nsq (sub v u) := by
+    intro u v; simp only [nsq, dot, sub]; ring
+  have h2 : nsq (sub pB C) = nsq (sub pS C) := by rw [sym pB C, sym pS C, c1]
+  have hnn : ∀ v : Vec ℝ, 0 ≤ nsq v := by
+    intro v; simp only [nsq, dot]; nlinarith [mul_self_nonneg v.x, mul_self_nonneg v.y, mul_self_nonneg v.z]
+  obtain ⟨R, hR⟩ : ∃ R, R = Real.sqrt (nsq (sub pS C)) := ⟨_, rfl⟩
+  rw [← hR] at hR0
+  have hR2 : 0 < nsq (sub pS C) := by
+    by_contra h
+    rw [hR, Real.sqrt_eq_zero_of_nonpos (not_lt.mp h)] at hR0
+    exact lt_irrefl _ hR0
+  have hRR : R * R = nsq (sub pS C) := by rw [hR]; exact Real.mul_self_sqrt (le_of_lt hR2)
+  have hRne : R ≠ 0 := ne_of_gt hR0
+  -- the unit normal
+  obtain ⟨N, hN⟩ : ∃ N, N = cross (sub pB pS) (sub pE pS) := ⟨_, rfl⟩
+  have hNN : nsq N = arc3Denom pS pB pE := by rw [hN, arc3Denom_eq]
+  have hN2 : 0 < nsq N := lt_of_le_of_ne (hnn N) (by rw [hNN]; exact Ne.symm hden)
+  obtain ⟨m, hm⟩ : ∃ m, m = Real.sqrt (nsq N) := ⟨_, rfl⟩
+  have hm0 : 0 < m := by rw [hm]; exact Real.sqrt_pos.mpr hN2
+  have hmm : m * m = nsq N := by rw [hm]; exact Real.mul_self_sqrt (le_of_lt hN2)
+  have hmne : m ≠ 0 := ne_of_gt hm0
+  have hS_N : dot (sub pS C) N = 0 := by
+    have : dot (sub pS C) N = - dot (sub C pS) N := by simp only [dot, sub]; ring
+    rw [this, hN, c3]; ring
+  have hB_N : dot (sub pB C) N = 0 := by
+    have : dot (sub pB C) N = dot (sub pS C) N := by rw [hN]; simp only [dot, sub, cross]; ring
+    rw [this, hS_N]
+  have hE_N : dot (sub pE C) N = 0 := by
+    have : dot (sub pE C) N = dot (sub pS C) N := by rw [hN]; simp only [dot, sub, cross]; ring
+    rw [this, hS_N]
+  obtain ⟨n, hn⟩ : ∃ n, n = smul (1 / m) N := ⟨_, rfl⟩
+  obtain ⟨e1, he1⟩ : ∃ e1, e1 = smul (1 / R) (sub pS C) := ⟨_, rfl⟩
+  have hsm : ∀ (k : ℝ) (v : Vec ℝ), nsq (smul k v) = k * k * nsq v := by
+    intro k v; simp only [nsq, dot, smul]; ring
+  have hdd : ∀ (a b : ℝ) (u v : Vec ℝ), dot (smul a u) (smul b v) = a * b * dot u v := by
+    intro a b u v; simp only [dot, smul]; ring
+  have hds : ∀ (b : ℝ) (u v : Vec ℝ), dot u (smul b v) = b * dot u v := by
+    intro b u v; simp only [dot, smul]; ring
+  have hcomm : ∀ u v : Vec ℝ, dot u v = dot v u := by intro u v; simp only [dot]; ring
+  have hn1 : nsq n = 1 := by rw [hn, hsm, ← hmm]; field_simp
+  have h1 : nsq e1 = 1 := by rw [he1, hsm, ← hRR]; field_simp
+  have hd : dot n e1 = 0 := by rw [hn, he1, hdd, hcomm N, hS_N]; ring
+  have hSn : dot (sub pS C) n = 0 := by rw [hn, hds, hS_N]; ring
+  have hBn : dot (sub pB C) n = 0 := by rw [hn, hds, hB_N]; ring
+  have hEn : dot (sub pE C) n = 0 := by rw [hn, hds, hE_N]; ring
+  have hF := frame_of_normal h1 hn1 hd
+  have dS := decompose h1 hn1 hd (sub pS C) hSn
+  have dB := decompose h1 hn1 hd (sub pB C) hBn
+  have dE := decompose h1 hn1 hd (sub pE C) hEn
+  have back : ∀ p : Vec ℝ, p = add C (sub p C) := by
+    intro p; apply Vec.ext' <;> simp only [add, sub] <;> ring
+  -- the start point is at the angle 0
+  have hS1 : dot (sub pS C) e1 = R := by
+    rw [he1, hds]; show 1 / R * nsq (sub pS C) = R; rw [← hRR]; field_simp
+  have hS2 : dot (sub pS C) (cross n e1) = 0 := by
+    rw [he1]; simp only [dot, cross, smul]; ring
+  have hS : pS = circAt C e1 (cross n e1) R 0 := by
+    unfold circAt circPt
+    rw [Real.cos_zero, Real.sin_zero, mul_one, mul_zero]
+    rw [hS1, hS2] at dS
+    rw [← dS]; exact back pS
+  -- angles of the other two points
+  have angle_of : ∀ p : Vec ℝ, nsq (sub p C) = nsq (sub pS C) →
+      p = add C (comb e1 (cross n e1) (dot (sub p C) e1) (dot (sub p C) (cross n e1))) →
+      ∃ α, 0 ≤ α ∧ α < 2 * Real.pi ∧ p = circAt C e1 (cross n e1) R α := by
+    intro p hp hdec
+    have hsq := nsq_comb hF (dot (sub p C) e1) (dot (sub p C) (cross n e1))
+    have idn : ∀ X : Vec ℝ, sub (add C X) C = X := by
+      intro X; apply Vec.ext' <;> simp only [add, sub] <;> ring
+    have hrep : sub p C = comb e1 (cross n e1) (dot (sub p C) e1) (dot (sub p C) (cross n e1)) :=
+      (congrArg (fun q => sub q C) hdec).trans (idn _)
+    rw [← hrep, hp, ← hRR] at hsq
+    have hunit : (dot (sub p C) e1 / R) * (dot (sub p C) e1 / R)
+        + (dot (sub p C) (cross n e1) / R) * (dot (sub p C) (cross n e1) / R) = 1 := by
+      field_simp; linarith
+    obtain ⟨α, h0, h2π, hc, hs⟩ := exists_angle hunit
+    refine ⟨α, h0, h2π, ?_⟩
+    unfold circAt circPt
+    rw [hc, hs, mul_div_cancel₀ _ hRne, mul_div_cancel₀ _ hRne]
+    exact hdec
+  obtain ⟨ψ, hψ0, hψ2, hB⟩ := angle_of pB h2 (by rw [← dB]; exact back pB)
+  obtain ⟨θ, hθ0, hθ2, hE⟩ := angle_of pE h3 (by rw [← dE]; exact back pE)
+  -- orientation: the normal was taken from (pB − pS) × (pE − pS)
+  have hk : cross (sub (circAt C e1 (cross n e1) R ψ) (circAt C e1 (cross n e1) R 0))
+      (sub (circAt C e1 (cross n e1) R θ) (circAt C e1 (cross n e1) R 0))
+      = smul ((R * Real.cos ψ - R * Real.cos 0) * (R * Real.sin θ - R * Real.sin 0)
+          - (R * Real.sin ψ - R * Real.sin 0) * (R * Real.cos θ - R * Real.cos 0)) n := by
+    unfold circAt
+    rw [sub_circPt, sub_circPt, cross_comb, cross_e1_e2 h1 hd]
+  rw [← hB, ← hS, ← hE, ← hN] at hk
+  have hNn : N = smul m n := by
+    rw [hn]; apply Vec.ext' <;> simp only [smul] <;> field_simp
+  have hkm : (R * Real.cos ψ - R * Real.cos 0) * (R * Real.sin θ - R * Real.sin 0)
+      - (R * Real.sin ψ - R * Real.sin 0) * (R * Real.cos θ - R * Real.cos 0) = m := by
+    have hsn : ∀ k : ℝ, dot (smul k n) n = k := by
+      intro k; rw [hcomm, hds, show dot n n = 1 from hn1]; ring
+    have e : dot N n = dot (smul ((R * Real.cos ψ - R * Real.cos 0) * (R * Real.sin θ - R * Real.sin 0)
+        - (R * Real.sin ψ - R * Real.sin 0) * (R * Real.cos θ - R * Real.cos 0)) n) n := by rw [← hk]
+    rw [hsn] at e
+    have e2 : dot N n = m := by rw [hNn]; exact hsn m
+    linarith
+  rw [Real.cos_zero, Real.sin_zero] at hkm
+  have hD : 0 < (Real.cos ψ - 1) * Real.sin θ - Real.sin ψ * (Real.cos θ - 1) := by
+    have : R * R * ((Real.cos ψ - 1) * Real.sin θ - Real.sin ψ * (Real.cos θ - 1)) = m := by rw [← hkm]; ring
+    have hpos : 0 < R * R := by positivity
+    by_contra hneg
+    have := mul_nonpos_of_nonneg_of_nonpos (le_of_lt hpos) (not_lt.mp hneg)
+    linarith
+  obtain ⟨hψpos, hψθ⟩ := circ_D_order hψ0 hψ2 hθ0 hθ2 hD
+  exact ⟨e1, cross n e1, R, ψ, θ, hF, hR0, hψpos, hψθ, hθ2, hS, hB, hE⟩
+
+/-- **Length = radius × swept angle for every input, with the exact exception.**  For any three points the guard accepts there are a
+    radius `r` and angles `0 < ψ < θ < 2π` (third point, end point, measured from the start point in the sense in which the third point
+    comes first) such that `arc_length_3point` over ℝ returns `r·θ` — the length of the arc from the start through the third point to the
+    end — if and only if `θ ≤ π ∨ ψ < π`; otherwise (known finding) it returns `r·(2π − θ)`. -/
+theorem T_C08_arc3_length_all (pS pB pE : Vec ℝ) (hden : arc3Denom pS pB pE ≠ 0) :
+    ∃ (r ψ θ : ℝ), 0 < r ∧ 0 < ψ ∧ ψ < θ ∧ θ < 2 * Real.pi ∧
+      nsq (sub pS (arc3Centre pS pB pE)) = r * r ∧
+      (arc3LengthR pS pB pE = r * θ ↔ (θ ≤ Real.pi ∨ ψ < Real.pi)) ∧
+      (¬ (θ ≤ Real.pi ∨ ψ < Real.pi) → arc3LengthR pS pB pE = r * (2 * Real.pi - θ)) := by
+  obtain ⟨e1, e2, r, ψ, θ, hF, hr, hψ, hψθ, hθ, hS, hB, hE⟩ := T_C08_arc3_param pS pB pE hden
+  obtain ⟨C, hC⟩ : ∃ C, C = arc3Centre pS pB pE := ⟨_, rfl⟩
+  rw [← hC] at hS hB hE ⊢
+  refine ⟨r, ψ, θ, hr, hψ, hψθ, hθ, ?_, ?_, ?_⟩
+  · have : nsq (sub (circAt C e1 e2 r 0) C) = r * r := by
+      unfold circAt
+      rw [sub_circPt_C, nsq_comb hF, Real.cos_zero, Real.sin_zero]; ring
+    rw [← hS] at this
+    exact this
+  · have := T_C08_arc3_length_real_iff (C := C) hF hr hψ hψθ hθ
+    rw [← hS, ← hB, ← hE] at this
+    exact this
+  · intro hn
+    rw [not_or, not_le, not_lt] at hn
+    have := (T_C08_arc3_length_real_beyond (C := C) hF hr hn.2 hψθ hθ).1
+    rw [← hS, ← hB, ← hE] at this
+    exact this
+
+/-- **The reported length does not depend on where the arc is** (over ℝ): translating the three points by any vector `t` translates the
+    computed centre by `t` and leaves `arc_length_3point` unchanged.  (In floating point this holds up to `eps·|offset|/radius`; the
+    `far-from-origin` stream checks that, tester change C08_q2.) -/
+theorem T_C08_arc3_translation_real (pS pB pE t : Vec ℝ) :
+    arc3Centre (add pS t) (add pB t) (add pE t) = add (arc3Centre pS pB pE) t ∧
+    arc3LengthR (add pS t) (add pB t) (add pE t) = arc3LengthR pS pB pE := by
+  have hs : ∀ p q : Vec ℝ, sub (add p t) (add q t) = sub p q := by
+    intro p q; apply Vec.ext' <;> simp only [add, sub] <;> ring
+  have hc : arc3Centre (add pS t) (add pB t) (add pE t) = add (arc3Centre pS pB pE) t := by
+    unfold arc3Centre arc3Denom
+    simp only [hs]
+    apply Vec.ext' <;> simp only [add, smul, unitVec] <;> ring
+  refine ⟨hc, ?_⟩
+  unfold arc3LengthR arc3LengthAt
+  rw [hc, hs, hs, hs]
+
 /-! ### round 6: tie to the source text (tables regenerated by `cbv/tables/c08.py` with `ast` on every run)
 
 The translator normalises the source first: docstrings, comments, annotations dropped, parameters (other than `self`) and locals
@@ -681,17 +969,18 @@ theorem T_C08_tie_theta_guard (θ : Rat) :
   simp [chain, cmpOp, thetaGuard]
 
 /-- `arc_length_3point`: the denominator guard `norm(denom) < 1e-18` and the side test `dot(cross(r1,r2), cross(r1,r3)) < 0` are
-    the comparisons of the source (operators and operands), the literals are `1e-18, 0.5, 0.5, -1.0, 1.0, 0, 2` in this order
+    the comparisons of the source (operators and operands), the bound of the guard is the double that `1e-18` denotes (`arc3Eps`, exactly), the literals are `1e-18, 0.5, 0.5, -1.0, 1.0, 0, 2` in this order
     (guard, `fact`, half of `vect_a`, the two clip bounds, the side test, `2π − angle`), and `np.clip` has the bounds the model uses -/
 theorem T_C08_tie_arc3 (x : Rat) :
     CBV.Gen.c08Arc3Compares.map (fun c => (c.1, c.2.2)) =
       [("norm(v8)", ["1e-18"]), ("np.dot(np.cross(v11, v12), np.cross(v11, v13))", ["0"])] ∧
     CBV.Gen.c08Arc3Numbers = [(1, 1000000000000000000), (1, 2), (1, 2), (-1, 1), (1, 1), (0, 1), (2, 1)] ∧
     CBV.Gen.c08Arc3Clip = [["v11.dot(v13) / (v14 * v15)", "-1.0", "1.0"]] ∧
-    chain (opsAt CBV.Gen.c08Arc3Compares 0) [absR x, mkRat 1 (10 ^ 18)] = some (decide (absR x < mkRat 1 (10 ^ 18))) ∧
+    arc3Eps = mkRat CBV.Gen.c08Arc3GuardDouble.1 CBV.Gen.c08Arc3GuardDouble.2 ∧
+    chain (opsAt CBV.Gen.c08Arc3Compares 0) [absR x, arc3Eps] = some (decide (absR x < arc3Eps)) ∧
     chain (opsAt CBV.Gen.c08Arc3Compares 1) [x, 0] = some (decide (x < 0)) ∧
     CBV.Gen.c08LengthCall = [["self.vertex_1.position", "self.third_point.position", "self.vertex_2.position"]] := by
-  refine ⟨by decide, by decide, by decide, ?_, ?_, by decide⟩
+  refine ⟨by decide, by decide, by decide, by decide +kernel, ?_, ?_, by decide⟩
   · have h : opsAt CBV.Gen.c08Arc3Compares 0 = ["Lt"] := by decide
     rw [h]; simp [chain, cmpOp]
   · have h : opsAt CBV.Gen.c08Arc3Compares 1 = ["Lt"] := by decide
